@@ -314,6 +314,8 @@ func c11(c *an.Check) {
 			})
 			return typeOK && an.ResultCallTo(s.RetVal(at.(*ssa.Return), 0), an.R("crypto", "", "UnmarshalPrivateKey")) != nil
 		}}}})
+	// ---- textual forms (base58 / PEM strings): a key or an error, never neither for non-empty input
+	confparseKeyGates(c)
 	// ---- PANIC
 	if bce := peerBCE(c, "./crypto", "./keypem"); bce != nil {
 		var fns []*ssa.Function
